@@ -177,10 +177,15 @@ CLAIMED = {
         "extract_suffix_index with i64/i32 arithmetic, VarIndex, keyword tables, bit_vec_of_len) produces HierarchyBuilder operations that "
         "are run through the hierarchy model of C08; extracted to OCaml it is compared with viewers::read_header on generated headers "
         "(both option values) and on keyword / index-form sweeps; oracle: hierarchy computed from the abstract declaration tree by an "
-        "independent rose-tree specification, meta data as written, header length.",
-   design_ref="DESIGN.md section 6, C09",
+        "independent rose-tree specification, meta data as written, header length. Coq theorems pinned in Properties/C09.v: "
+        "parse_name_range / parse_name_single / parse_name_plain (Proofs/NameProofs.v: every reference `base {[group]} [i]` or "
+        "`... [msb:lsb]` - any number of array groups, blanks or none between the parts, negative bounds, up to 18 digits - is split "
+        "into exactly that bit range, the last group as the variable's name and base + other groups as array scopes), "
+        "var_index_roundtrip (the packed VarIndex gives the bounds back), id_to_int_injective (equal signal numbers only from equal "
+        "identifier codes). The command loop and the scope stack are not covered by theorems, hence the level.",
+   design_ref="DESIGN.md section 6, C09 and section 12.5",
    note="Trusted: Coq kernel, extraction, OCaml driver, Rust harness, Python declaration printer + oracle. Blank space inside commands is limited to spaces; names are ASCII.",
-   technique="correspondence: Coq model extracted to OCaml vs real header parser + oracle from abstract declaration tree"),
+   technique="correspondence: Coq model extracted to OCaml vs real header parser + oracle from abstract declaration tree; Coq theorems for the name/bit-range clause"),
  "C07": dict(
    category="proof",
    text="Coq theorems over the Gallina model of SignalSource::load_signals (sort, dedup, alias substitution, zip back, slice) and of the "
